@@ -128,6 +128,68 @@ def scale_purity(run):
     run.extra["scale_purity_calls"] = n
 
 
+def schema_purity(run, quick):
+    """Every document class of Schema.tla (valid, every single mutation, the unspecified classes such as integral-float versions or
+    thresholds) in every argument position of the checker and the three verifiers: ordered deep snapshots before / after."""
+    import collections
+    from .. import schema_gamma
+    auth, common = lib.cct("authentication"), lib.cct("common")
+    r = run.tlc("Schema", "Schema_quick.cfg", expect_cases=True, timeout=3000)
+    rr = random.Random(run.seed * 7 + 3)
+    n = 0
+    for case in (r.cases if not quick else r.cases[::2]):
+        env = schema_gamma.build(case["doc"], rr)
+        other = schema_gamma.build(case["doc"], rr)
+        calls = [("checkformat_delegating_metadata", common.checkformat_delegating_metadata, [env], {}),
+                 ("verify_root", auth.verify_root, [env, other], {}),
+                 ("verify_delegation", auth.verify_delegation, [rr.choice(["root", "key_mgr", "nope"]), other, env], {"gpg": rr.random() < 0.5}),
+                 ("verify_signable", auth.verify_signable, [env, [schema_gamma.KA, schema_gamma.KB], 1], {"gpg": rr.random() < 0.5})]
+        for name, fn, args, kw in calls:
+            try:
+                before = [ordered_snapshot(a) for a in args]
+            except (TypeError, ValueError, RecursionError):
+                continue
+            o1, _, _ = lib.call(fn, *args, **kw)
+            after = [ordered_snapshot(a) for a in args]
+            n += 1
+            if before != after:
+                muts = ", ".join(f"{f}={case['doc'][f]}" for f in case["muts"]) or "valid document"
+                run.violation(f"{name} modified an object passed to it (document class: {muts})",
+                              {"kind": "schema_purity", "api": name, "doc": case["doc"], "outcome": o1,
+                               "argument_positions_changed": [i for i in range(len(args)) if before[i] != after[i]]})
+        run._distinct.add("schema-purity-%d" % n)
+    # mappings with side effects on look-up (defaultdict and friends) as trusted metadata: a failed look-up must not insert
+    from .. import gamma, metadata
+    from ..twins import twin_canon
+    keys = gamma.Keys(3, run.seed, offset=9500)
+    for factory in (lambda: collections.defaultdict(dict), lambda: collections.defaultdict(lambda: metadata.rule([keys.pub[1]], 1)),
+                    lambda: collections.defaultdict(list), lambda: collections.OrderedDict(), lambda: collections.defaultdict(lambda: None)):
+        for role in ("pkg_mgr", "nope", "key_mgr"):
+            dels = factory()
+            dels["root"] = metadata.rule([keys.pub[1]], 1)
+            dels["key_mgr"] = metadata.rule([keys.pub[2]], 1)
+            tdoc = metadata.delegating_doc("root", 1, {}, rr)
+            tdoc["delegations"] = dels
+            trusted = {"signatures": {}, "signed": tdoc}
+            P = {"some": "payload"}
+            un = {"signatures": {keys.pub[2]: {"signature": keys.sign(2, twin_canon(P)).hex()}}, "signed": P}
+            for fn_name, fn, args in (("verify_delegation", auth.verify_delegation, [role, un, trusted]),
+                                      ("verify_root", auth.verify_root, [trusted, {"signatures": {}, "signed": dict(tdoc, version=2)}]),
+                                      ("checkformat_delegating_metadata", common.checkformat_delegating_metadata, [trusted])):
+                before = [ordered_snapshot(a) for a in args]
+                o1, _, _ = lib.call(fn, *args)
+                o2, _, _ = lib.call(fn, *args)
+                n += 2
+                if [ordered_snapshot(a) for a in args] != before:
+                    run.violation(f"{fn_name} modified an object passed to it (trusted delegations given as a {type(dels).__name__})",
+                                  {"kind": "schema_purity", "api": fn_name, "role": role, "outcome": o1})
+                if o1 != o2:
+                    run.violation(f"{fn_name}: repeating the call changes the verdict (trusted delegations given as a {type(dels).__name__})",
+                                  {"kind": "schema_purity", "api": fn_name, "role": role, "first": o1, "second": o2})
+    run.evaluations += n
+    run.extra["schema_purity_calls"] = n
+
+
 def check(run):
     quick = run.tier == "quick"
     run.rule = ("Calls.tla (two-level heap, shared pool, two threads stepping through the verifier loop, caller-side mutation, wrap, sign) "
@@ -199,6 +261,7 @@ def check(run):
     # wrap isolation at every depth
     wrap_isolation(run)
     scale_purity(run)
+    schema_purity(run, quick)
     # configurations: the same histories, sequentially, in fresh interpreters
     sample = behaviours[: (60 if quick else 600)]
     for cfg in procs.CONFIGS:
